@@ -278,6 +278,18 @@ Section Model.
                 end
     end.
 
+  (* several transformations in one graph: every event comes with the root
+     that was handed to its add_expr call; type_nodes, the blank counter and
+     the triples are shared *)
+  Fixpoint runr (res : list (term * ev)) (st : tstate) : option tstate :=
+    match res with
+    | [] => Some st
+    | (r, e) :: rest => match step r e st with
+                        | None => None
+                        | Some st' => runr rest st'
+                        end
+    end.
+
   (* The pinned Source branch (graph.py:247 before the repair): a type that is
      held through a bound type variable is never found in the canon, because
      variables hash by identity.  [via_var] = "expr.type is a bound variable". *)
@@ -391,6 +403,34 @@ Definition annot_exprs sw L ns canon sup (es : list cexpr) : option (gstate * ts
   | None => None
   | Some (g, evs) =>
       match run sw L ns canon sup TRoot evs (tinit sw L ns canon) with
+      | None => None
+      | Some st => Some (g, st)
+      end
+  end.
+
+(* add_expr called once per transformation, each with its own root, on one
+   graph (no entry in expr_nodes for the top-level expressions: that is
+   add_workflow's doing) *)
+Fixpoint concepts_roots (res : list (term * cexpr)) (g : gstate)
+    : option (gstate * list (term * ev)) :=
+  match res with
+  | [] => Some (g, [])
+  | (r, e) :: rest =>
+      match concepts e None false g with
+      | None => None
+      | Some (n, g1, ev1) =>
+          match concepts_roots rest g1 with
+          | None => None
+          | Some (g2, ev2) => Some (g2, map (pair r) ev1 ++ ev2)
+          end
+      end
+  end.
+
+Definition annot_roots sw L ns canon sup (res : list (term * cexpr)) : option (gstate * tstate) :=
+  match concepts_roots res g_empty with
+  | None => None
+  | Some (g, evs) =>
+      match runr sw L ns canon sup evs (tinit sw L ns canon) with
       | None => None
       | Some st => Some (g, st)
       end
